@@ -231,12 +231,17 @@ func (fx *FuncCtx) allocsOf(st *State) []Term { return st.allocs }
 
 func (fx *FuncCtx) allocRef(st *State, base string) Term {
 	r := fx.freshConst("new_"+base, SInt)
-	st.assume(Gt(r, IntLit(0)))
-	for _, prev := range st.refs {
-		st.assume(Not(Eq(r, prev)))
-	}
-	st.refs = append(st.refs[:len(st.refs):len(st.refs)], r)
+	st.assume(Eq(r, st.allocTop))
+	st.allocTop = fx.define("alloctop", Add(r, IntLit(1)))
 	return r
+}
+
+// refFact: a reference read from the heap (or received) denotes an allocated object or nil.
+func (fx *FuncCtx) refFact(st *State, v Term) {
+	if st == nil || fx.inQuant > 0 || st.allocTop.S == "" {
+		return
+	}
+	st.assume(And(Ge(v, IntLit(0)), Lt(v, st.allocTop)))
 }
 
 func isAllocTerm(t Term) bool {
@@ -658,6 +663,13 @@ func (fx *FuncCtx) applyContract(st *State, con *Contract, callee *types.Func, r
 	for _, m := range con.Modifies {
 		fx.applyModifies(st, env, m, call)
 	}
+	// the callee may allocate: the frontier moves by an unknown amount
+	preTop := st.allocTop
+	if preTop.S != "" {
+		st.allocTop = fx.freshConst("alloctop_call", SInt)
+		st.assume(Ge(st.allocTop, preTop))
+	}
+	env.preTop = preTop
 	// results
 	var results []Val
 	var rs []sval
@@ -667,6 +679,7 @@ func (fx *FuncCtx) applyContract(st *State, con *Contract, callee *types.Func, r
 		for _, f := range facts {
 			st.assume(f)
 		}
+		fx.refFacts(st, v)
 		results = append(results, v)
 		rs = append(rs, sval{v, r.Type()})
 		env.resNames = append(env.resNames, r.Name())
